@@ -128,46 +128,43 @@ Proof.
 Qed.
 
 (* what the simulation guarantees about a model result *)
-Record res_ok (strict infun : bool) (d : nat) (r : flow) : Prop := {
+Record res_ok (infun : bool) (d : nat) (r : flow) : Prop := {
   ro_return : infun = false -> forall o, r <> Brk (DReturn o);
-  ro_interrupt : strict = true -> forall v, r <> Brk (DInterrupt (Some v));
   ro_abort : forall o, r <> Brk (DAbort o);
   (* break / continue never reach past the lexically enclosing loops *)
   ro_break : forall c, r = Brk (DBreak c) -> c < d;
   ro_continue : forall c, r = Brk (DContinue c) -> c < d
 }.
 
-Lemma res_ok_cont strict infun d : res_ok strict infun d Cont.
+Lemma res_ok_cont infun d : res_ok infun d Cont.
 Proof. split; intros; discriminate. Qed.
 
-Lemma res_ok_errexit strict infun d stk s : res_ok strict infun d (apply_errexit stk s).
+Lemma res_ok_errexit infun d stk s : res_ok infun d (apply_errexit stk s).
 Proof. unfold apply_errexit. destruct (_ && _); split; intros; discriminate. Qed.
 
 (* the result of a function body (depth 0) seen by the caller *)
-Lemma res_ok_weaken strict infun d r : res_ok strict true 0 r -> (forall o, r <> Brk (DReturn o)) ->
-  res_ok strict infun d r.
-Proof. intros [A B C D E] H; split; auto; intros c Ec; [specialize (D c Ec) | specialize (E c Ec)]; lia. Qed.
+Lemma res_ok_weaken infun d r : res_ok true 0 r -> (forall o, r <> Brk (DReturn o)) ->
+  res_ok infun d r.
+Proof. intros [A C D E] H; split; auto; intros c Ec; [specialize (D c Ec) | specialize (E c Ec)]; lia. Qed.
 
-Lemma res_ok_other strict infun d d' r : res_ok strict infun d r ->
-  (forall c, r <> Brk (DBreak c)) -> (forall c, r <> Brk (DContinue c)) -> res_ok strict infun d' r.
-Proof. intros [A B C D E] H1 H2; split; auto; intros c Ec; exfalso; [eapply H1 | eapply H2]; exact Ec. Qed.
+Lemma res_ok_other infun d d' r : res_ok infun d r ->
+  (forall c, r <> Brk (DBreak c)) -> (forall c, r <> Brk (DContinue c)) -> res_ok infun d' r.
+Proof. intros [A C D E] H1 H2; split; auto; intros c Ec; exfalso; [eapply H1 | eapply H2]; exact Ec. Qed.
 
 (* invariant of the state: the stored function bodies and trap action are
-   well-formed; in the strict class nothing is read-only; outside it no trap
-   is set *)
-Record state_ok (strict : bool) (s : state) : Prop := {
-  so_funs : forall nm b, lookup_fun nm (funs s) = Some b -> wf_cmd strict 0 true b = true;
-  so_trap : forall a, exit_trap s = Some a -> strict = true /\ wf_list strict 0 false a = true;
-  so_ronly : strict = true -> ronly s = []
+   well-formed *)
+Record state_ok (s : state) : Prop := {
+  so_funs : forall nm b, lookup_fun nm (funs s) = Some b -> wf_cmd 0 true b = true;
+  so_trap : forall a, exit_trap s = Some a -> wf_list 0 false a = true
 }.
 
-Lemma state_ok_same strict s s' :
+Lemma state_ok_same s s' :
   funs s' = funs s -> exit_trap s' = exit_trap s -> ronly s' = ronly s ->
-  state_ok strict s -> state_ok strict s'.
-Proof. intros A B C [F T R]; split; rewrite ?A, ?B, ?C; auto. Qed.
+  state_ok s -> state_ok s'.
+Proof. intros A B C [F T]; split; rewrite ?A, ?B; auto. Qed.
 
-Lemma state_ok_child strict s : state_ok strict s -> state_ok strict (child_state s).
-Proof. intros [F T R]; split; cbn; auto. discriminate. Qed.
+Lemma state_ok_child s : state_ok s -> state_ok (child_state s).
+Proof. intros [F T]; split; cbn; auto. discriminate. Qed.
 
 (* ------------------------------------------------------------------ *)
 (* built-in utilities                                                  *)
@@ -202,13 +199,13 @@ Ltac bs_brk :=
     first [congruence | match goal with H : Brk _ = Brk _ |- _ => inversion H; subst end; lia]
     | repeat split; reflexivity]].
 
-Lemma builtin_sim strict nm spf stk d infun ex sv args s st dv s' :
+Lemma builtin_sim nm spf stk d infun ex sv args s st dv s' :
   ctx_ok stk d infun ex -> wf_call d infun nm args = true ->
   run_builtin nm spf (FBuiltin :: stk) args s = ((st, dv), s') ->
   let s1 := set_status st s' in
   let r := match dv with Cont => apply_errexit stk s1 | _ => dv end in
   abs sv r s1 = run_utility nm spf d ex sv args s
-  /\ res_ok strict infun d r
+  /\ res_ok infun d r
   /\ funs s1 = funs s /\ exit_trap s1 = exit_trap s /\ ronly s1 = ronly s.
 Proof.
   intros Hc Hw Hr.
@@ -289,62 +286,61 @@ Definition tree_P (k d : nat) (sv : option N) : bool -> pipeline -> state -> opt
   fun ex' p s' => sem_pipeline k d ex' sv p s'.
 
 Section Claims.
-Variable strict : bool.
 
 Definition post (infun : bool) (d : nat) (r : flow) (s' : state)
     (f : option N -> nat -> option sres) : Prop :=
-  state_ok strict s' /\ res_ok strict infun d r /\ forall sv, ok (f sv) (abs sv r s').
+  state_ok s' /\ res_ok infun d r /\ forall sv, ok (f sv) (abs sv r s').
 
 Definition sim_cmd (n : nat) : Prop := forall stk c s r s' d infun ex,
   exec_cmd n stk c s = Some (r, s') -> ctx_ok stk d infun ex ->
-  wf_cmd strict d infun c = true -> state_ok strict s ->
+  wf_cmd d infun c = true -> state_ok s ->
   post infun d r s' (fun sv k => sem_cmd k d ex sv c s).
 
 Definition sim_list (n : nat) : Prop := forall stk l s r s' d infun ex,
   exec_list n stk l s = Some (r, s') -> ctx_ok stk d infun ex ->
-  wf_list strict d infun l = true -> state_ok strict s ->
+  wf_list d infun l = true -> state_ok s ->
   post infun d r s' (fun sv k => sem_list k d ex sv l s).
 
 Definition sim_andor (n : nat) : Prop := forall stk a s r s' d infun ex,
   exec_andor n stk a s = Some (r, s') -> ctx_ok stk d infun ex ->
-  wf_andor strict d infun a = true -> state_ok strict s ->
+  wf_andor d infun a = true -> state_ok s ->
   post infun d r s' (fun sv k => sem_andor k d ex sv a s).
 
 Definition sim_rest (n : nat) : Prop := forall stk rs s1 r s' d infun ex,
   exec_rest n stk rs s1 = Some (r, s') -> rs <> RNil -> ctx_ok stk d infun ex ->
-  wf_rest strict d infun rs = true -> state_ok strict s1 ->
-  state_ok strict s' /\ res_ok strict infun d r /\
+  wf_rest d infun rs = true -> state_ok s1 ->
+  state_ok s' /\ res_ok infun d r /\
   forall sv t s0,
     ok (fun k => sem_tree (tree_P k d sv) ex t false s0) (Normal, s1) ->
     ok (fun k => sem_tree (tree_P k d sv) ex (aotree_of t rs) true s0) (abs sv r s').
 
 Definition sim_pipeline (n : nat) : Prop := forall stk p s r s' d infun ex,
   exec_pipeline n stk p s = Some (r, s') -> ctx_ok stk d infun ex ->
-  wf_pipeline strict d infun p = true -> state_ok strict s ->
+  wf_pipeline d infun p = true -> state_ok s ->
   post infun d r s' (fun sv k => sem_pipeline k d ex sv p s).
 
 Definition sim_commands (n : nat) : Prop := forall stk cs s r s' d infun ex,
   exec_commands n stk cs s = Some (r, s') -> ctx_ok stk d infun ex ->
-  wf_pipeline strict d infun (Pipe false cs) = true -> state_ok strict s ->
+  wf_pipeline d infun (Pipe false cs) = true -> state_ok s ->
   post infun d r s' (fun sv k => sem_commands k d ex sv cs s).
 
 Definition sim_multi (n : nat) : Prop := forall stk cs s0 acc acc' infun ex,
   exec_multi n stk cs s0 acc = Some acc' -> ex = has_cond stk ->
-  wf_cmds strict infun cs = true -> state_ok strict s0 ->
+  wf_cmds infun cs = true -> state_ok s0 ->
   ok (fun k => sem_multi k ex cs s0 acc) acc'.
 
 Definition sim_subshell (n : nat) : Prop := forall stk body s c' infun ex,
   run_subshell n stk body s = Some c' -> ex = has_cond stk ->
-  wf_list strict 0 infun body = true -> state_ok strict s ->
+  wf_list 0 infun body = true -> state_ok s ->
   ok (fun k => sem_subshell k ex body s) c'.
 
 Definition sim_trap (n : nat) : Prop := forall stk s s' ex,
-  run_exit_trap n stk s = Some s' -> ex = has_cond stk -> state_ok strict s ->
+  run_exit_trap n stk s = Some s' -> ex = has_cond stk -> state_ok s ->
   ok (fun k => sem_exit_trap k ex s) s'.
 
 Definition sim_elifs (n : nat) : Prop := forall stk e has_else els s r s' d infun ex,
   exec_elifs n stk e has_else els s = Some (r, s') -> ctx_ok stk d infun ex ->
-  wf_elifs strict d infun e = true -> wf_list strict d infun els = true -> state_ok strict s ->
+  wf_elifs d infun e = true -> wf_list d infun els = true -> state_ok s ->
   post infun d r s' (fun sv k => sem_else k d ex sv e has_else els s).
 
 (* what [sem_loop] does, given how one run of Loop::iterate ended *)
@@ -365,23 +361,23 @@ Definition ok_loop d ex sv u cond body (last : N) (s : state) (res : sres) : Pro
 Definition sim_iter (n : nat) : Prop := forall stk cond u body s reg r s1 reg1 d infun ex,
   loop_iterate n stk cond (negb u) body s reg = Some (r, s1, reg1) ->
   ctx_ok stk (S d) infun ex ->
-  wf_list strict (S d) infun cond = true -> wf_list strict (S d) infun body = true ->
-  state_ok strict s ->
-  state_ok strict s1 /\ res_ok strict infun (S d) r /\
+  wf_list (S d) infun cond = true -> wf_list (S d) infun body = true ->
+  state_ok s ->
+  state_ok s1 /\ res_ok infun (S d) r /\
   forall sv, iter_spec sv (ok_loop d ex sv u cond body reg s) (ok_loop d ex sv u cond body) r s1 reg1.
 
 Definition sim_exec (n : nat) : Prop := forall stk cond u body s reg r s1 reg1 d infun ex,
   loop_execute n stk cond (negb u) body s reg = Some (r, s1, reg1) ->
   ctx_ok stk (S d) infun ex ->
-  wf_list strict (S d) infun cond = true -> wf_list strict (S d) infun body = true ->
-  state_ok strict s ->
-  state_ok strict s1 /\ res_ok strict infun d r /\
+  wf_list (S d) infun cond = true -> wf_list (S d) infun body = true ->
+  state_ok s ->
+  state_ok s1 /\ res_ok infun d r /\
   forall sv, ok_loop d ex sv u cond body reg s
                (match r with Cont => (Normal, set_status reg1 s1) | _ => abs sv r s1 end).
 
 Definition sim_for (n : nat) : Prop := forall stk x values body s r s' d infun ex,
   exec_for n stk x values body s = Some (r, s') -> ctx_ok stk (S d) infun ex ->
-  wf_list strict (S d) infun body = true -> state_ok strict s ->
+  wf_list (S d) infun body = true -> state_ok s ->
   post infun d r s' (fun sv k => sem_for k d ex sv x values body s).
 
 Definition pick (ft : bool) (subject : option N) (items : itemlist) :=
@@ -389,8 +385,8 @@ Definition pick (ft : bool) (subject : option N) (items : itemlist) :=
 
 Definition sim_items (n : nat) : Prop := forall stk subject items ft upd s r s' d infun ex,
   exec_items n stk subject items ft upd s = Some (r, s') -> ctx_ok stk d infun ex ->
-  wf_items strict d infun items = true -> state_ok strict s ->
-  state_ok strict s' /\ res_ok strict infun d r /\
+  wf_items d infun items = true -> state_ok s ->
+  state_ok s' /\ res_ok infun d r /\
   forall sv,
     match pick ft subject items with
     | None => abs sv r s' = (Normal, if upd then s else set_status 0 s)
@@ -440,7 +436,7 @@ Ltac post_split := split; [| split].
 
 (* the result of a command that the specification completes by [done] *)
 Lemma post_done infun d stk s1 ex (f : option N -> nat -> option sres) :
-  ex = has_cond stk -> state_ok strict s1 ->
+  ex = has_cond stk -> state_ok s1 ->
   (forall sv, ok (f sv) (done ex sv s1)) ->
   post infun d (apply_errexit stk s1) s1 f.
 Proof.
@@ -551,7 +547,7 @@ Lemma step_pipeline n : sim_commands n -> sim_pipeline (S n).
 Proof.
   intros Icmds stk p s r s' d infun ex H Hc Hw Hs.
   cbn [exec_pipeline] in H. destruct p as [neg cs].
-  assert (Hw' : wf_pipeline strict d infun (Pipe false cs) = true) by exact Hw.
+  assert (Hw' : wf_pipeline d infun (Pipe false cs) = true) by exact Hw.
   destruct neg.
   - destruct (exec_commands n (FCondition :: stk) cs s) as [[rc sc]|] eqn:Ec; [|discriminate].
     destruct (Icmds _ _ _ _ _ _ _ _ Ec (ctx_cond _ _ _ _ Hc) Hw' Hs) as (Hs2 & Hr2 & Hok2).
@@ -598,9 +594,9 @@ Proof.
   - remember (CCons c (CCons c2 cs2)) as cs eqn:Ecs.
     destruct (exec_multi n stk cs s s) as [s1|] eqn:Em; [|discriminate].
     inversion H; subst r s'.
-    assert (Hwm : wf_cmds strict infun cs = true) by (subst cs; exact Hw).
+    assert (Hwm : wf_cmds infun cs = true) by (subst cs; exact Hw).
     pose proof (Imulti _ _ _ _ _ infun ex Em (co_ex _ _ _ _ Hc) Hwm Hs) as Hok.
-    assert (Hs1 : state_ok strict s1).
+    assert (Hs1 : state_ok s1).
     { destruct (multi_same _ _ _ _ _ _ Em) as (A & B & C); [repeat split; reflexivity|].
       eapply state_ok_same; [exact A | exact B | exact C | exact Hs]. }
     apply (post_done infun d stk s1 ex); [exact (co_ex _ _ _ _ Hc) | exact Hs1 |].
@@ -617,11 +613,11 @@ Proof.
       as [[r c1]|] eqn:Ec; [|discriminate].
     destruct (run_exit_trap n (FSubshell :: stk) (apply_result r c1)) as [c2|] eqn:Et; [|discriminate].
     assert (Hctx : ctx_ok (FSubshell :: stk) 0 infun ex) by (split; cbn; auto).
-    assert (Hs0 : state_ok strict (child_state (set_trace (trace acc) s0))).
+    assert (Hs0 : state_ok (child_state (set_trace (trace acc) s0))).
     { apply state_ok_child. eapply state_ok_same; [..|exact Hs]; reflexivity. }
     destruct (Icmd _ _ _ _ _ _ _ _ Ec Hctx Hwc Hs0) as (Hs1 & Hr1 & Hok1).
     specialize (Hok1 None).
-    assert (Hs1' : state_ok strict (apply_result r c1)).
+    assert (Hs1' : state_ok (apply_result r c1)).
     { destruct r as [|dv]; [exact Hs1|]. cbn [apply_result].
       destruct (divert_exit_status dv); [eapply state_ok_same; [..|exact Hs1]; reflexivity | exact Hs1]. }
     pose proof (Itrap _ _ _ ex Et He Hs1') as Hok2.
@@ -632,7 +628,7 @@ Proof.
 Qed.
 
 (* ---- the EXIT trap and subshells ---- *)
-Lemma state_ok_apply_result r s : state_ok strict s -> state_ok strict (apply_result r s).
+Lemma state_ok_apply_result r s : state_ok s -> state_ok (apply_result r s).
 Proof.
   intros Hs. destruct r as [|dv]; [exact Hs|]. cbn [apply_result].
   destruct (divert_exit_status dv); [eapply state_ok_same; [..|exact Hs]; reflexivity | exact Hs].
@@ -643,13 +639,12 @@ Proof.
   intros Ilist stk s s' ex H He Hs.
   cbn [run_exit_trap] in H. destruct (exit_trap s) as [action|] eqn:Etrap.
   - destruct (exec_list n (FTrap :: stk) action s) as [[r s1]|] eqn:El; [|discriminate].
-    destruct (so_trap _ _ Hs _ Etrap) as [Hstrict Hwa].
+    pose proof (so_trap _ Hs _ Etrap) as Hwa.
     destruct (Ilist _ _ _ _ _ _ _ _ El (ctx_trap stk ex false He) Hwa Hs) as (Hs1 & Hr1 & Hok1).
     specialize (Hok1 (Some (status s))).
-    destruct Hr1 as [R1 R2 R3]. specialize (R1 eq_refl). specialize (R2 Hstrict).
+    destruct Hr1 as [R1 R3 _ _]. specialize (R1 eq_refl).
     destruct r as [|[c|c|o|[v|]|[v|]|o]];
-      try (exfalso; eapply R1; reflexivity); try (exfalso; eapply R2; reflexivity);
-      try (exfalso; eapply R3; reflexivity);
+      try (exfalso; eapply R1; reflexivity); try (exfalso; eapply R3; reflexivity);
       inversion H; subst s'; cbn [abs exit_no_operand] in Hok1;
       (ok_start; cbn [sem_exit_trap]; rewrite Etrap; ok_rw; reflexivity).
   - inversion H; subst s'. exists 1. intros [|k] Hk; [lia|]. cbn [sem_exit_trap]. rewrite Etrap.
@@ -662,7 +657,7 @@ Proof.
   cbn [run_subshell] in H.
   destruct (exec_list n (FSubshell :: stk) body (child_state s)) as [[r c1]|] eqn:El; [|discriminate].
   assert (Hctx : ctx_ok (FSubshell :: stk) 0 infun ex) by (split; cbn; auto).
-  destruct (Ilist _ _ _ _ _ _ _ _ El Hctx Hw (state_ok_child _ _ Hs)) as (Hs1 & Hr1 & Hok1).
+  destruct (Ilist _ _ _ _ _ _ _ _ El Hctx Hw (state_ok_child _ Hs)) as (Hs1 & Hr1 & Hok1).
   specialize (Hok1 None).
   pose proof (Itrap _ _ _ ex H He (state_ok_apply_result r _ Hs1)) as Hok2.
   rewrite <- abs_none_apply_result in Hok2.
@@ -765,17 +760,17 @@ Proof.
     apply cond_ended. exact (Hok1 sv).
 Qed.
 
-Lemma res_ok_dec_break strict0 infun d c :
-  res_ok strict0 infun (S d) (Brk (DBreak (S c))) -> res_ok strict0 infun d (Brk (DBreak c)).
+Lemma res_ok_dec_break infun d c :
+  res_ok infun (S d) (Brk (DBreak (S c))) -> res_ok infun d (Brk (DBreak c)).
 Proof.
-  intros [A B C D E]. split; intros; try congruence.
+  intros [A C D E]. split; intros; try congruence.
   - inversion H; subst. specialize (D (S c0) eq_refl). lia.
 Qed.
 
-Lemma res_ok_dec_continue strict0 infun d c :
-  res_ok strict0 infun (S d) (Brk (DContinue (S c))) -> res_ok strict0 infun d (Brk (DContinue c)).
+Lemma res_ok_dec_continue infun d c :
+  res_ok infun (S d) (Brk (DContinue (S c))) -> res_ok infun d (Brk (DContinue c)).
 Proof.
-  intros [A B C D E]. split; intros; try congruence.
+  intros [A C D E]. split; intros; try congruence.
   - inversion H; subst. specialize (E (S c0) eq_refl). lia.
 Qed.
 
@@ -812,13 +807,9 @@ Proof.
 Qed.
 
 (* ---- for ---- *)
-Lemma strict_not_ronly x s : strict = true -> state_ok strict s -> is_ronly x s = false.
-Proof. intros E Hs. unfold is_ronly. rewrite (so_ronly _ _ Hs E). reflexivity. Qed.
-
-Lemma res_ok_expansion infun d stk s :
-  strict = false -> res_ok strict infun d (handle_expansion_error stk s).
+Lemma res_ok_expansion infun d stk s : res_ok infun d (handle_expansion_error stk s).
 Proof.
-  intros E. unfold handle_expansion_error.
+  unfold handle_expansion_error.
   destruct (errexit_is_applicable stk s); split; intros; congruence.
 Qed.
 
@@ -830,13 +821,11 @@ Proof.
     intros sv. exists 1. intros [|k] Hk; [lia|]. reflexivity.
   - destruct (is_ronly x s) eqn:Ero.
     + inversion H; subst r s'.
-      assert (Hst : strict = false).
-      { apply Bool.not_true_is_false. intros E. rewrite (strict_not_ronly x s E Hs) in Ero. discriminate. }
-      post_split; [exact Hs | apply res_ok_expansion; exact Hst |]. intros sv.
+      post_split; [exact Hs | apply res_ok_expansion |]. intros sv.
       rewrite (abs_expansion_error stk sv s ErrAssignment eq_refl eq_refl ex).
       exists 1. intros [|k] Hk; [lia|]. cbn [sem_for]. rewrite Ero. reflexivity.
     + destruct (exec_list n stk body (set_var x (Some v) s)) as [[rb sb]|] eqn:Eb; [|discriminate].
-      assert (Hsv : state_ok strict (set_var x (Some v) s))
+      assert (Hsv : state_ok (set_var x (Some v) s))
         by (eapply state_ok_same; [..|exact Hs]; reflexivity).
       destruct (Ilist _ _ _ _ _ _ _ _ Eb Hc Hw Hsv) as (Hs2 & Hr2 & Hok2).
       destruct rb as [|[[|c]|[|c]|o|o|o|o]].
@@ -931,25 +920,11 @@ Proof.
 Qed.
 
 (* ---- simple commands ---- *)
-Lemma expand_word_strict w s : word_may_fail w = false -> expand_word w s <> None.
-Proof. destruct w; cbn; try discriminate; destruct (lookup_var x (vars s)) as [[v|]|]; discriminate. Qed.
-
-Lemma expand_words_strict ws s : existsb word_may_fail ws = false -> expand_words ws s <> None.
-Proof.
-  induction ws as [|w ws IH]; cbn; [discriminate|]. intros E.
-  apply orb_false_iff in E as [E1 E2].
-  pose proof (expand_word_strict w s E1). specialize (IH E2).
-  destruct (expand_word w s), (expand_words ws s); congruence.
-Qed.
-
-Lemma strict_dec_false (b : bool) : negb strict || negb b = true -> b = true -> strict = false.
-Proof. intros H E. subst b. destruct strict; [discriminate | reflexivity]. Qed.
-
 Lemma apply_errexit_zero stk s : status s = 0%N -> apply_errexit stk s = Cont.
 Proof. intros E. unfold apply_errexit. rewrite E. reflexivity. Qed.
 
 Lemma wf_call_of_cmd d infun dc nm args :
-  wf_cmd strict d infun (CCall dc nm args) = true -> bad_redir dc = false ->
+  wf_cmd d infun (CCall dc nm args) = true -> bad_redir dc = false ->
   wf_call d infun nm args = true.
 Proof.
   intros H E. cbn [wf_cmd] in H. rewrite E in H. unfold wf_call.
@@ -957,7 +932,7 @@ Proof.
 Qed.
 
 Lemma post_status infun d stk s st ex (f : option N -> nat -> option sres) :
-  ex = has_cond stk -> state_ok strict s ->
+  ex = has_cond stk -> state_ok s ->
   (forall sv, ok (f sv) (done ex sv (set_status st s))) ->
   post infun d (apply_errexit stk (set_status st s)) (set_status st s) f.
 Proof.
@@ -970,7 +945,7 @@ Ltac ok_now := let k := fresh "k" in let Hk := fresh "Hk" in
 
 Lemma step_call n : sim_cmd n -> forall stk dc nm args s r s' d infun ex,
   exec_cmd (S n) stk (CCall dc nm args) s = Some (r, s') -> ctx_ok stk d infun ex ->
-  wf_cmd strict d infun (CCall dc nm args) = true -> state_ok strict s ->
+  wf_cmd d infun (CCall dc nm args) = true -> state_ok s ->
   post infun d r s' (fun sv k => sem_cmd k d ex sv (CCall dc nm args) s).
 Proof.
   intros Icmd stk dc nm args s r s' d infun ex H Hc Hw Hs.
@@ -984,32 +959,32 @@ Proof.
     + unfold classify_via_command in H.
       destruct (is_special nm) eqn:Esp; [|destruct (is_regular_builtin nm) eqn:Ereg].
       * destruct (run_builtin nm false (FBuiltin :: FBuiltin :: stk) args s) as [[st dv] sb] eqn:Eb.
-        destruct (builtin_sim strict nm false (FBuiltin :: stk) d infun ex None args s st dv sb
+        destruct (builtin_sim nm false (FBuiltin :: stk) d infun ex None args s st dv sb
                     (ctx_builtin _ _ _ _ Hc) (wf_call_of_cmd _ _ _ _ _ Hw Ebad) Eb)
           as (_ & Hr & A & B & C).
-        assert (Hsb : state_ok strict (set_status st sb))
+        assert (Hsb : state_ok (set_status st sb))
           by (eapply state_ok_same; [exact A | exact B | exact C | exact Hs]).
         assert (Hr' : r = match dv with Cont => apply_errexit stk (set_status st sb) | _ => dv end
                       /\ s' = set_status st sb).
         { destruct dv; inversion H; subst; split; reflexivity. }
         destruct Hr' as [-> ->].
         post_split; [exact Hsb | exact Hr |]. intros sv.
-        destruct (builtin_sim strict nm false (FBuiltin :: stk) d infun ex sv args s st dv sb
+        destruct (builtin_sim nm false (FBuiltin :: stk) d infun ex sv args s st dv sb
                     (ctx_builtin _ _ _ _ Hc) (wf_call_of_cmd _ _ _ _ _ Hw Ebad) Eb) as (Habs & _).
         cbv zeta in Habs. rewrite apply_errexit_builtin in Habs. rewrite Habs.
         ok_now. cbn [sem_cmd]. rewrite Evia, Ebad, Esp. reflexivity.
       * destruct (run_builtin nm false (FBuiltin :: FBuiltin :: stk) args s) as [[st dv] sb] eqn:Eb.
-        destruct (builtin_sim strict nm false (FBuiltin :: stk) d infun ex None args s st dv sb
+        destruct (builtin_sim nm false (FBuiltin :: stk) d infun ex None args s st dv sb
                     (ctx_builtin _ _ _ _ Hc) (wf_call_of_cmd _ _ _ _ _ Hw Ebad) Eb)
           as (_ & Hr & A & B & C).
-        assert (Hsb : state_ok strict (set_status st sb))
+        assert (Hsb : state_ok (set_status st sb))
           by (eapply state_ok_same; [exact A | exact B | exact C | exact Hs]).
         assert (Hr' : r = match dv with Cont => apply_errexit stk (set_status st sb) | _ => dv end
                       /\ s' = set_status st sb).
         { destruct dv; inversion H; subst; split; reflexivity. }
         destruct Hr' as [-> ->].
         post_split; [exact Hsb | exact Hr |]. intros sv.
-        destruct (builtin_sim strict nm false (FBuiltin :: stk) d infun ex sv args s st dv sb
+        destruct (builtin_sim nm false (FBuiltin :: stk) d infun ex sv args s st dv sb
                     (ctx_builtin _ _ _ _ Hc) (wf_call_of_cmd _ _ _ _ _ Hw Ebad) Eb) as (Habs & _).
         cbv zeta in Habs. rewrite apply_errexit_builtin in Habs. rewrite Habs.
         ok_now. cbn [sem_cmd]. rewrite Evia, Ebad, Esp, Ereg. reflexivity.
@@ -1025,16 +1000,16 @@ Proof.
                     | split; intros; congruence |].
         intros sv. ok_now. cbn [sem_cmd]. rewrite Evia. unfold resolve. rewrite Esp, Ebad. reflexivity.
       * destruct (run_builtin nm true (FBuiltin :: stk) args s) as [[st dv] sb] eqn:Eb.
-        destruct (builtin_sim strict nm true stk d infun ex None args s st dv sb
+        destruct (builtin_sim nm true stk d infun ex None args s st dv sb
                     Hc (wf_call_of_cmd _ _ _ _ _ Hw Ebad) Eb) as (_ & Hr & A & B & C).
-        assert (Hsb : state_ok strict (set_status st sb))
+        assert (Hsb : state_ok (set_status st sb))
           by (eapply state_ok_same; [exact A | exact B | exact C | exact Hs]).
         assert (Hr' : r = match dv with Cont => apply_errexit stk (set_status st sb) | _ => dv end
                       /\ s' = set_status st sb).
         { destruct dv; inversion H; subst; split; reflexivity. }
         destruct Hr' as [-> ->].
         post_split; [exact Hsb | exact Hr |]. intros sv.
-        destruct (builtin_sim strict nm true stk d infun ex sv args s st dv sb
+        destruct (builtin_sim nm true stk d infun ex sv args s st dv sb
                     Hc (wf_call_of_cmd _ _ _ _ _ Hw Ebad) Eb) as (Habs & _).
         cbv zeta in Habs. rewrite Habs.
         ok_now. cbn [sem_cmd]. rewrite Evia. unfold resolve. rewrite Esp, Ebad. reflexivity.
@@ -1045,7 +1020,7 @@ Proof.
            intros sv. ok_now. cbn [sem_cmd]. rewrite Evia. unfold resolve. rewrite Esp, Efun, Ebad.
            reflexivity.
         -- destruct (exec_cmd n stk body s) as [[rb sb]|] eqn:Eb; [|discriminate].
-           destruct (Icmd _ _ _ _ _ _ _ _ Eb (ctx_fun _ _ _ _ Hc) (so_funs _ _ Hs _ _ Efun) Hs)
+           destruct (Icmd _ _ _ _ _ _ _ _ Eb (ctx_fun _ _ _ _ Hc) (so_funs _ Hs _ _ Efun) Hs)
              as (Hs1 & Hr1 & Hok1).
            assert (Hspec : forall sv res,
                      (match abs sv rb sb with
@@ -1084,16 +1059,16 @@ Proof.
               intros sv. ok_now. cbn [sem_cmd]. rewrite Evia. unfold resolve.
               rewrite Esp, Efun, Ereg, Ebad. reflexivity.
            ++ destruct (run_builtin nm false (FBuiltin :: stk) args s) as [[st dv] sb] eqn:Eb.
-              destruct (builtin_sim strict nm false stk d infun ex None args s st dv sb
+              destruct (builtin_sim nm false stk d infun ex None args s st dv sb
                           Hc (wf_call_of_cmd _ _ _ _ _ Hw Ebad) Eb) as (_ & Hr & A & B & C).
-              assert (Hsb : state_ok strict (set_status st sb))
+              assert (Hsb : state_ok (set_status st sb))
                 by (eapply state_ok_same; [exact A | exact B | exact C | exact Hs]).
               assert (Hr' : r = match dv with Cont => apply_errexit stk (set_status st sb) | _ => dv end
                             /\ s' = set_status st sb).
               { destruct dv; inversion H; subst; split; reflexivity. }
               destruct Hr' as [-> ->].
               post_split; [exact Hsb | exact Hr |]. intros sv.
-              destruct (builtin_sim strict nm false stk d infun ex sv args s st dv sb
+              destruct (builtin_sim nm false stk d infun ex sv args s st dv sb
                           Hc (wf_call_of_cmd _ _ _ _ _ Hw Ebad) Eb) as (Habs & _).
               cbv zeta in Habs. rewrite Habs.
               ok_now. cbn [sem_cmd]. rewrite Evia. unfold resolve. rewrite Esp, Efun, Ereg, Ebad.
@@ -1117,10 +1092,7 @@ Proof.
     destruct (expand_word w s) as [fields|] eqn:Ew.
     + destruct (is_ronly x s) eqn:Ero.
       * inversion H; subst r s'.
-        assert (Hst : strict = false).
-        { apply Bool.not_true_is_false. intros E. rewrite (strict_not_ronly x s E Hs) in Ero.
-          discriminate. }
-        post_split; [exact Hs | apply res_ok_expansion; exact Hst |]. intros sv.
+        post_split; [exact Hs | apply res_ok_expansion |]. intros sv.
         rewrite (abs_expansion_error stk sv s ErrAssignment eq_refl eq_refl ex).
         ok_now. cbn [sem_cmd]. rewrite Ew, Ero. reflexivity.
       * inversion H; subst r s'. rewrite apply_errexit_zero by reflexivity.
@@ -1128,18 +1100,14 @@ Proof.
                     | apply res_ok_cont |].
         intros sv. ok_now. cbn [sem_cmd]. rewrite Ew, Ero. reflexivity.
     + inversion H; subst r s'.
-      assert (Hst : strict = false).
-      { apply (strict_dec_false _ Hw). destruct (word_may_fail w) eqn:E; [reflexivity|].
-        exfalso. exact (expand_word_strict w s E Ew). }
-      post_split; [exact Hs | apply res_ok_expansion; exact Hst |]. intros sv.
+      post_split; [exact Hs | apply res_ok_expansion |]. intros sv.
       rewrite (abs_expansion_error stk sv s ErrExpansion eq_refl eq_refl ex).
       ok_now. cbn [sem_cmd]. rewrite Ew. reflexivity.
   - (* readonly *)
     cbn [exec_cmd] in H. cbn [wf_cmd] in Hw. inversion H; subst r s'.
     rewrite apply_errexit_zero by reflexivity.
-    assert (Hst : strict = false) by (destruct strict; [discriminate | reflexivity]).
     post_split; [| apply res_ok_cont |].
-    + destruct Hs as [F T R]. split; cbn; auto. intros E; congruence.
+    + destruct Hs as [F T]. split; cbn; auto.
     + intros sv. ok_now. reflexivity.
   - (* call *) exact (step_call n Icmd _ _ _ _ _ _ _ _ _ _ H Hc Hw Hs).
   - (* brace group *)
@@ -1190,7 +1158,7 @@ Proof.
       ok_start. cbn [sem_cmd]. ok_rw. reflexivity.
   - (* for *)
     cbn [exec_cmd] in H. cbn [wf_cmd] in Hw.
-    apply andb_true_iff in Hw as [Hw Hwb]. apply andb_true_iff in Hw as [Hww Hne].
+    apply andb_true_iff in Hw as [Hne Hwb].
     destruct (expand_words ws s) as [values|] eqn:Ew.
     + destruct values as [|v values'].
       * rewrite Hne in H. inversion H; subst r s'.
@@ -1200,14 +1168,11 @@ Proof.
         post_split; [exact Hs2 | exact Hr2 |]. intros sv. specialize (Hok2 sv).
         ok_start. cbn [sem_cmd]. rewrite Ew. ok_rw. reflexivity.
     + inversion H; subst r s'.
-      assert (Hst : strict = false).
-      { apply (strict_dec_false _ Hww). destruct (existsb word_may_fail ws) eqn:E; [reflexivity|].
-        exfalso. exact (expand_words_strict ws s E Ew). }
-      post_split; [exact Hs | apply res_ok_expansion; exact Hst |]. intros sv.
+      post_split; [exact Hs | apply res_ok_expansion |]. intros sv.
       rewrite (abs_expansion_error stk sv s ErrExpansion eq_refl eq_refl ex).
       ok_now. cbn [sem_cmd]. rewrite Ew. reflexivity.
   - (* case *)
-    cbn [exec_cmd] in H. cbn [wf_cmd] in Hw. apply andb_true_iff in Hw as [Hww Hwi].
+    cbn [exec_cmd] in H. cbn [wf_cmd] in Hw. pose proof Hw as Hwi.
     destruct (expand_word w s) as [fields|] eqn:Ew.
     + destruct (Iitems _ _ _ _ _ _ _ _ _ _ _ H Hc Hwi Hs) as (Hs2 & Hr2 & Hok2).
       post_split; [exact Hs2 | exact Hr2 |]. intros sv. specialize (Hok2 sv).
@@ -1216,25 +1181,22 @@ Proof.
       * ok_start. cbn [sem_cmd]. rewrite Ew, Ef. ok_rw. reflexivity.
       * rewrite Hok2. ok_now. cbn [sem_cmd]. rewrite Ew, Ef. reflexivity.
     + inversion H; subst r s'.
-      assert (Hst : strict = false).
-      { apply (strict_dec_false _ Hww). destruct (word_may_fail w) eqn:E; [reflexivity|].
-        exfalso. exact (expand_word_strict w s E Ew). }
-      post_split; [exact Hs | apply res_ok_expansion; exact Hst |]. intros sv.
+      post_split; [exact Hs | apply res_ok_expansion |]. intros sv.
       rewrite (abs_expansion_error stk sv s ErrExpansion eq_refl eq_refl ex).
       ok_now. cbn [sem_cmd]. rewrite Ew. reflexivity.
   - (* function definition *)
     cbn [exec_cmd] in H. cbn [wf_cmd] in Hw. inversion H; subst r s'.
     rewrite apply_errexit_zero by reflexivity.
     post_split; [| apply res_ok_cont |].
-    + destruct Hs as [F T R]. split; cbn; auto.
+    + destruct Hs as [F T]. split; cbn; auto.
       intros nm' b. destruct (name_eqb nm' nm); [intros E; inversion E; subst; exact Hw | apply F].
     + intros sv. ok_now. reflexivity.
   - (* trap ... EXIT *)
-    cbn [exec_cmd] in H. cbn [wf_cmd] in Hw. apply andb_true_iff in Hw as [Hst Hwa].
+    cbn [exec_cmd] in H. cbn [wf_cmd] in Hw. pose proof Hw as Hwa.
     inversion H; subst r s'. rewrite apply_errexit_zero by reflexivity.
     post_split; [| apply res_ok_cont |].
-    + destruct Hs as [F T R]. split; cbn; auto.
-      intros a E; inversion E; subst; split; assumption.
+    + destruct Hs as [F T]. split; cbn; auto.
+      intros a E; inversion E; subst; assumption.
     + intros sv. ok_now. reflexivity.
   - (* compound command with a failing redirection *)
     cbn [exec_cmd] in H. inversion H; subst r s'.
